@@ -234,17 +234,29 @@ func collectSkipSites(p *Program, pkgs []string) (map[string][]string, map[strin
 					ord[base]++
 					set := map[string]bool{}
 					cp := map[string]token.Pos{}
-					edgeFacts(cl.Block(), func(cond ssa.Value, val bool) bool {
-						k := condKind(cond)
-						set[k] = true
-						if _, ok := cp[k]; !ok {
-							cp[k] = cond.Pos()
-							if !cp[k].IsValid() {
-								cp[k] = cl.Pos()
+					// the conditions that dominate the call, and – for a call inside a
+					// function literal – those that dominate the creation of the literal
+					blocks := []*ssa.BasicBlock{cl.Block()}
+					for inner := g; inner.Parent() != nil; inner = inner.Parent() {
+						allInstrs(inner.Parent(), func(pi ssa.Instruction) {
+							if mc, ok := pi.(*ssa.MakeClosure); ok && mc.Fn == ssa.Value(inner) {
+								blocks = append(blocks, mc.Block())
 							}
-						}
-						return true
-					})
+						})
+					}
+					for _, blk := range blocks {
+						edgeFacts(blk, func(cond ssa.Value, val bool) bool {
+							k := condKind(cond)
+							set[k] = true
+							if _, ok := cp[k]; !ok {
+								cp[k] = cond.Pos()
+								if !cp[k].IsValid() {
+									cp[k] = cl.Pos()
+								}
+							}
+							return true
+						})
+					}
 					var ks []string
 					for k := range set {
 						ks = append(ks, k)
